@@ -214,37 +214,41 @@ theorem agree_gen_L {env : Env} (hflt : env.flt = false) (hapE : env.cfg.ap = fa
   | zero => intro s hs; have := size_pos s; omega
   | succ f ih =>
     intro s hs hfr t d v hv hF hd hr
-    -- the compact statement for this (schema, value), by `agree_gen`
-    have hcompact := agree_gen ext hext hflt hapE cfg' hap ext' R hR hAny hInt hF64 (f + 1) s hs hfr t v hv hF hd hr
+    -- scalars: the compact leaf lemma for this (schema, value)
     cases s with
     | bool =>
-      rw [deTyped_bool] at hcompact ⊢
+      rw [deTyped_bool]
       exact agree_scalar_L ext L hext noBracket_deBool (FromValue.fromValue cfg' ext' .bool) (fun _ => rfl) (fun _ => rfl) d v hv
-        (fun _ _ => hcompact)
+        (fun _ _ => agree_bool ext hext hflt cfg' hap ext' v hv)
     | int w =>
-      rw [deTyped_int] at hcompact ⊢
-      exact agree_scalar_L ext L hext (noBracket_deInt w) (FromValue.fromValue cfg' ext' (.int w)) (fun _ => rfl) (fun _ => rfl) d v hv
-        (fun _ _ => hcompact)
+      rw [deTyped_int]
+      refine agree_scalar_L ext L hext (noBracket_deInt w) (FromValue.fromValue cfg' ext' (.int w)) (fun _ => rfl) (fun _ => rfl) d v hv
+        (fun _ _ => agree_int ext hext hflt cfg' hap ext' w v hv fun b hb rest pos hs => ?_)
+      subst hb
+      by_cases h128 : is128 w = true
+      · exact absurd rfl (hInt w _ hr h128 b)
+      · exact SJ.Proofs.TypedFloat.int_float_refused hflt hapE ext hext w h128 b (by simpa [VOK, shapeW, wfNumW] using hv)
+          (by simpa [Spec.WF.floatsRT] using hF) rest pos hs
     | f64 =>
-      rw [deTyped_f64] at hcompact ⊢
+      rw [deTyped_f64]
       exact agree_scalar_L ext L hext (noBracket_deNumber _) (FromValue.fromValue cfg' ext' .f64) (fun _ => rfl) (fun _ => rfl) d v hv
-        (fun _ _ => hcompact)
+        (fun _ _ => SJ.Proofs.TypedFloat.agree_f64 hflt hapE cfg' hap ext' ext hext v hv hF (hF64 v hr))
     | unit =>
-      rw [deTyped_unit] at hcompact ⊢
+      rw [deTyped_unit]
       exact agree_scalar_L ext L hext noBracket_deUnit (FromValue.fromValue cfg' ext' .unit) (fun _ => rfl) (fun _ => rfl) d v hv
-        (fun _ _ => hcompact)
+        (fun _ _ => agree_unit ext hext hflt cfg' hap ext' v hv)
     | unitStruct =>
-      rw [deTyped_unitStruct] at hcompact ⊢
+      rw [deTyped_unitStruct]
       exact agree_scalar_L ext L hext noBracket_deUnit (FromValue.fromValue cfg' ext' .unitStruct) (fun _ => rfl) (fun _ => rfl) d v hv
-        (fun _ _ => hcompact)
+        (fun _ _ => by simpa [FromValue.fromValue] using agree_unit ext hext hflt cfg' hap ext' v hv)
     | char =>
-      rw [deTyped_char] at hcompact ⊢
+      rw [deTyped_char]
       exact agree_scalar_L ext L hext (noBracket_deStr _) (FromValue.fromValue cfg' ext' .char) (fun _ => rfl) (fun _ => rfl) d v hv
-        (fun _ _ => hcompact)
+        (fun _ _ => agree_char ext hext hflt cfg' hap ext' v hv)
     | string =>
-      rw [deTyped_string] at hcompact ⊢
+      rw [deTyped_string]
       exact agree_scalar_L ext L hext (noBracket_deStr _) (FromValue.fromValue cfg' ext' .string) (fun _ => rfl) (fun _ => rfl) d v hv
-        (fun _ _ => hcompact)
+        (fun _ _ => agree_string ext hext hflt cfg' hap ext' v hv)
     | bytes =>
       rw [deTyped_bytes]
       refine agree_bytes_L ext L hext hflt cfg' hap ext' d t v hv hd fun xs hxs x hx b hb rest pos hs => ?_
